@@ -1087,6 +1087,9 @@ class DocutilsRenderer(RendererProtocol):
         # markdown-it encodes unsafe characters with percent-encoding
         # we want to get back the original, source input
         href = self.md.normalizeLinkText(cast(str, token.attrGet("href") or ""))
+        # normalizeLinkText deliberately leaves `%25` encoded; a literal `%`
+        # in the source (encoded to `%25` by normalizeLink) must come back as `%`
+        href = href.replace("%25", "%")
 
         # note if the link had explicit text or not (autolinks are always implicit)
         explicit = (token.info != "auto") and bool(token.children)
